@@ -193,6 +193,7 @@ def make_mac_classes():
             if self.brk is not None and self.brk.happened:
                 return None
             self.gbi = options.get('gbi')
+            self.peer.activations = getattr(self.peer, 'activations', 0) + 1
             return self.peer.gb()
 
         def exchange(self, send_data, timeout):
@@ -203,6 +204,7 @@ def make_mac_classes():
             if self.brk is not None and self.brk.happened:
                 return None
             self.gbt = options.get('gbt')
+            self.peer.activations = getattr(self.peer, 'activations', 0) + 1
             return self.peer.gb()
 
         def exchange(self, send_data, timeout):
